@@ -12,6 +12,7 @@ import (
 	"bufio"
 	"bytes"
 	"context"
+	"errors"
 	"fmt"
 	"io"
 	"log"
@@ -132,6 +133,11 @@ func (p *c01CapturePeer) takeFor(addrs []string, wait time.Duration) []*c01Captu
 		p.mu.Unlock()
 		time.Sleep(2 * time.Millisecond)
 	}
+}
+
+func c01SendIsTimeout(err error) bool {
+	var ne net.Error
+	return errors.Is(err, os.ErrDeadlineExceeded) || (errors.As(err, &ne) && ne.Timeout()) || strings.Contains(err.Error(), "timeout awaiting response headers")
 }
 
 func c01SendErrKind(err error) string {
@@ -326,6 +332,13 @@ func TestVerif_C01_h1send(t *testing.T) {
 					human += fmt.Sprintf(" ORACLE: the peer accepted a request and received %d bytes behind its head: not exactly the declared-length prefix of the body (surplus bytes of the reader on the connection are read as the next request)", len(wire)-k-4)
 				}
 			}
+		case err != nil && c01SendIsTimeout(err) && (len(caps) == 0 || caps[0].raw.Len() == 0):
+			// the transport's 1.5 s response-header limit passed and the capture peer has not even
+			// been scheduled to read the request: a stalled machine, not behaviour of the library —
+			// skipped and counted, never judged (the lane fails below if this is frequent)
+			s.Count("skipped:harness-timeout")
+			t.Logf("case %d: %v with nothing captured — skipped, not judged: %s", i, err, human)
+			continue
 		case err != nil && (len(caps) == 0 || caps[0].raw.Len() == 0 || !strings.Contains(c01SendErrKind(err), "other")):
 			ans = c01SendErrKind(err)
 			s.Count(ans)
@@ -382,5 +395,8 @@ func TestVerif_C01_h1send(t *testing.T) {
 		s.Case(c01H1Line("c01send "+mode, tc, rec), ans, ok, "", sent, human+fmt.Sprintf(" -> err=%v connections=%d", err, len(caps)))
 	}
 	s.Need(t, "err:header", "err:method", "err:ctl", "err:bodylen", "sent:plain", "sent:order-mode", "sent:refused-by-reference-parser")
+	if k := s.seen["skipped:harness-timeout"]; k > 3 && k*100 > 3*n {
+		t.Errorf("%d of %d cases ended in a time-out with nothing captured: more than a stalled machine explains", k, n)
+	}
 	s.Finish()
 }
